@@ -994,7 +994,9 @@ RULE = (
     "of built-ins per backend. A job is non-trivial when it is translated and has >=2 collection calls or >=1 declaration; distinct = distinct "
     "(backend, query text). process_metadata: every subset of 8 keys x contains_collection x 3 backends (non-trivial: accepted or well formed). "
     "_replace_whole_words: the running-code lines plus random concatenations of 21 atoms (non-trivial: contains the word collection_name). "
-    "Inputs inside a defect exclusion of a _partial theorem are produced by the known-findings stream only."
+    "Inputs inside a defect exclusion of a _partial theorem are produced by the known-findings stream only. Thorough tier: 45 translated jobs "
+    "are compiled with g++ against a generated stand-in of the declared data model and a mock event store and run for one event (ATLAS also with "
+    "one bank missing); ExecSpec is evaluated on the log of (container type, bank) requests."
 )
 TRUSTED_BASE = [
     "hand model lean/FaxVerif/C06/Model.lean of validate/declare/lookup/get_collection/process_ast_node, tied to the code by the job, process_metadata, "
@@ -1004,7 +1006,8 @@ TRUSTED_BASE = [
     "reading the include / LINK_LIBRARIES lines of the rendered files); the text reader observeText of Spec.lean (executed by the driver, not verified)",
     "the consumer model (Frag.observe): a collection value is only ever iterated and its elements accessed with the operator of the declared element "
     "pointer depth, a singleton value is accessed through the pointer - tied by the same job stream",
-    "C++ meaning of ANA_CHECK / retrieve / getByLabel / getByToken / consumes (runRetrieve is a three-line semantics of the checked idiom); "
+    "C++ meaning of ANA_CHECK / retrieve / getByLabel / getByToken / consumes: runRetrieve is a three-line semantics of the checked idiom, validated "
+    "in the thorough tier by running the rendered jobs compiled against tools/c06_lib/cppmock.py (mock event store / event, a test double); "
     "string literal escaping is C18's subject (cppLit is re-stated here and tied by the job stream)",
     "func_adl (front end, extract_metadata order: outermost MetaData first, simplify_chained_calls) - tied only by correspondence",
 ]
@@ -1031,8 +1034,9 @@ LEVEL_NOTE = (
     "word collection_name (hit by the substitution); and collection names ending in a digit (unique_name collision, C02/C11). "
     "Trusted: Lean kernel (axioms audited: propext, Classical.choice, Quot.sound), the hand model's agreement with the Python (differential execution, "
     "not proved), the translator, the harness, the text reader, the consumer model; where in the per-event code the translator places the block "
-    "(C01's Gen model) is not part of this claim - blocks are found wherever they are. No g++/mock-store run: failed_retrieve_aborts rests on a "
-    "stated semantics of the status-checked idiom."
+    "(C01's Gen model) is not part of this claim - blocks are found wherever they are. failed_retrieve_aborts rests on a stated semantics of the "
+    "status-checked idiom; the thorough tier validates it by executing g++-compiled jobs against a mock event store with a missing bank "
+    "(sampled, not proved)."
 )
 TECHNIQUE = "Lean 4 theorems over an executable model + source translator (tables, templates, metadata branches) + differential execution against the real pipeline"
 DESIGN_REF = "DESIGN.md §4 C06"
